@@ -433,7 +433,7 @@ def setter_and_equality_rules(ctx, prefix="R1"):
     k_self, k_item = key("self._box is None"), key(f"{other}._box is None")
     k_same = {key(f"np.array_equal(self._box, {other}._box)"), key(f"np.array_equal({other}._box, self._box)")}
     bad_eq, n_eq = [], 0
-    for w in machine.ways(eq.body, set()):
+    for w in machine.ways(eq.body, machine.assigned_names(eq)):
         if w.exit == "return False":
             continue
         n_eq += 1
